@@ -428,9 +428,10 @@ class Machine:
                     if "promoted[" in name and c[1].endswith(name):
                         return self.run(f, [])
                 raise Unsupported("promoted constant " + c[1])
-            if re.match(r"^[\w:]+$", c[1]):
+            plain = re.sub(r"::<[^<>]*>", "", c[1])
+            if re.match(r"^[\w:]+$", plain):
                 # a named constant of the crate (const ITEM: T = {..} in the dump)
-                for cand in (c[1], "::".join(c[1].split("::")[-2:]), c[1].split("::")[-1]):
+                for cand in (plain, "::".join(plain.split("::")[-2:]), plain.split("::")[-1]):
                     f = self.funcs.get(cand)
                     if f is not None and not f.params and re.match(r"^[A-Z_0-9]+$", cand.split("::")[-1]):
                         return self.run(f, [])
